@@ -1,10 +1,11 @@
 #!/bin/bash
 # usage: tools/try_mutant.sh <patch-file> <ID> [tier] [seed]   -- applies the patch to /repo, runs the check, reverts.
+V="$(cd "$(dirname "$0")/.." && pwd)"  # the /verif tree this script belongs to (a committed snapshot under vp run)
 set -u
 patch=$(readlink -f "$1"); id=$2; tier=${3:-quick}; seed=${4:-1}
 cd /repo || exit 9
 if ! git diff --quiet; then echo "/repo has uncommitted changes"; exit 9; fi
 git apply "$patch" || { echo "patch does not apply"; exit 9; }
 trap 'git -C /repo checkout -- . ; git -C /repo clean -fdq internal cmd' EXIT
-cd /verif && ./check "$id" --tier "$tier" --seed "$seed" --no-evidence
+cd "$V" && ./check "$id" --tier "$tier" --seed "$seed" --no-evidence
 echo "exit=$?"
